@@ -110,9 +110,13 @@ def handle_events(sol_tuple, events, consts, direction, is_terminal, attributes)
         verbose=False
     )
 
-    g = [ev_f[idx](t_root - (t_next - t_prev) * D.epsilon(roots[0].dtype) ** 0.5) for idx, t_root in enumerate(roots)]
+    # The offset used to sample either side of a root must not fall below the resolution of the time variable,
+    # otherwise (large |t| relative to the step) all three samples coincide and the crossing is dropped
+    t_probe = [D.ar_numpy.sign(t_next - t_prev) * D.ar_numpy.maximum(D.ar_numpy.abs(t_next - t_prev) * D.epsilon(roots[0].dtype) ** 0.5,
+                                                                     2 * D.epsilon(roots[0].dtype) * D.ar_numpy.abs(t_root)) for t_root in roots]
+    g = [ev_f[idx](t_root - t_probe[idx]) for idx, t_root in enumerate(roots)]
     g_cen = [ev_f[idx](t_root) for idx, t_root in enumerate(roots)]
-    g_new = [ev_f[idx](t_root + (t_next - t_prev) * D.epsilon(roots[0].dtype) ** 0.5) for idx, t_root in enumerate(roots)]
+    g_new = [ev_f[idx](t_root + t_probe[idx]) for idx, t_root in enumerate(roots)]
 
     g = D.ar_numpy.stack(g)
     g_cen = D.ar_numpy.stack(g_cen)
